@@ -99,3 +99,189 @@ func HandCFF(t *tape.Tape) []byte {
 	out = append(out, lsubrIdx...)
 	return out
 }
+
+// HandCID assembles a small CID-keyed CFF font by hand: ROS, CIDCount,
+// charset, FDSelect (format 0 or 3), FDArray with 1..3 font dictionaries and
+// their private dictionaries.  With reals set, a tape-chosen subset of the
+// integer operands of the Top DICT is written as real numbers (operator 30),
+// which the DICT encoding permits for any operand but no writer of the
+// library does; a reader may refuse such a font, it must not fall over it.
+func HandCID(t *tape.Tape, reals bool) []byte {
+	index := func(items [][]byte) []byte {
+		n := len(items)
+		out := []byte{byte(n >> 8), byte(n)}
+		if n == 0 {
+			return out
+		}
+		out = append(out, 2)
+		off := 1
+		out = append(out, byte(off>>8), byte(off))
+		for _, it := range items {
+			off += len(it)
+			out = append(out, byte(off>>8), byte(off))
+		}
+		for _, it := range items {
+			out = append(out, it...)
+		}
+		return out
+	}
+	num := func(v int) byte { return byte(v + 139) }
+	int5 := func(v int) []byte { return []byte{29, byte(v >> 24), byte(v >> 16), byte(v >> 8), byte(v)} }
+	real := func(v int) []byte {
+		digits := []byte(itoa(v))
+		var nib []byte
+		for _, d := range digits {
+			nib = append(nib, d-'0')
+		}
+		nib = append(nib, 0xf)
+		if len(nib)%2 == 1 {
+			nib = append(nib, 0xf)
+		}
+		out := []byte{30}
+		for i := 0; i < len(nib); i += 2 {
+			out = append(out, nib[i]<<4|nib[i+1])
+		}
+		return out
+	}
+	// which of the seven Top DICT integer operands are written as reals
+	// (0 Supplement, 1 CIDCount, 2 charset, 3 CharStrings, 4 FDArray, 5 FDSelect)
+	asReal := make([]bool, 7)
+	if reals {
+		switch t.Draw(3) {
+		case 0:
+			asReal[0] = true
+		case 1:
+			asReal[t.Draw(2)] = true
+			asReal[t.Draw(2)] = true
+		default:
+			for i := range asReal {
+				asReal[i] = t.Chance(1, 3)
+			}
+			asReal[t.Draw(6)] = true
+		}
+	}
+	enc := func(k, v int) []byte {
+		if asReal[k] {
+			return real(v)
+		}
+		return int5(v)
+	}
+
+	nGlyphs := t.Range(2, 14)
+	nFD := t.Range(1, 3)
+	var cs [][]byte
+	cs = append(cs, []byte{14})
+	for g := 1; g < nGlyphs; g++ {
+		c := []byte{num(t.Range(0, 100)), num(t.Range(0, 100)), 21, num(t.Range(0, 60) - 30), num(t.Range(0, 60) - 30), 5, 14}
+		cs = append(cs, c)
+	}
+	sel := make([]int, nGlyphs)
+	fd, left := 0, 0
+	for g := range sel {
+		if left == 0 {
+			left = t.Range(1, 5)
+			fd = t.Draw(nFD)
+		}
+		left--
+		sel[g] = fd
+	}
+	var fdsel []byte
+	if t.Chance(1, 2) {
+		fdsel = FDSelect3(func(g int) int { return sel[g] }, nGlyphs)
+	} else {
+		fdsel = []byte{0}
+		for _, s := range sel {
+			fdsel = append(fdsel, byte(s))
+		}
+	}
+	charset := []byte{0}
+	cidv := 0
+	for g := 1; g < nGlyphs; g++ {
+		cidv += t.Range(1, 9)
+		charset = append(charset, byte(cidv>>8), byte(cidv))
+	}
+	supp := t.Range(0, 6)
+
+	header := []byte{1, 0, 4, 2}
+	nameIdx := index([][]byte{[]byte("HandCID")})
+	stringIdx := index([][]byte{[]byte("Adobe"), []byte("Identity")})
+	gsubrIdx := index(nil)
+	csIdx := index(cs)
+	var privates [][]byte
+	for i := 0; i < nFD; i++ {
+		privates = append(privates, []byte{num(t.Range(0, 100)), 20, num(t.Range(0, 100)), 21}) // defaultWidthX, nominalWidthX
+	}
+
+	// positions depend on the length of the Top DICT, which depends on the
+	// encodings of the positions: iterate to the fixed point
+	charsetOff, fdselOff, csOff, fdaOff := 0, 0, 0, 0
+	var top, fdaIdx []byte
+	for iter := 0; iter < 8; iter++ {
+		top = nil
+		top = append(top, int5(391)...)
+		top = append(top, int5(392)...)
+		top = append(top, enc(0, supp)...)
+		top = append(top, 12, 30)
+		top = append(top, enc(1, cidv+1)...)
+		top = append(top, 12, 34)
+		top = append(top, enc(2, charsetOff)...)
+		top = append(top, 15)
+		top = append(top, enc(3, csOff)...)
+		top = append(top, 17)
+		top = append(top, enc(4, fdaOff)...)
+		top = append(top, 12, 36)
+		top = append(top, enc(5, fdselOff)...)
+		top = append(top, 12, 37)
+		topIdxLen := 2 + 1 + 2*2 + len(top)
+		pos := len(header) + len(nameIdx) + topIdxLen + len(stringIdx) + len(gsubrIdx)
+		nCharset := pos
+		pos += len(charset)
+		nFdsel := pos
+		pos += len(fdsel)
+		nCs := pos
+		pos += len(csIdx)
+		nFda := pos
+		// font dictionaries: Private size and offset, always 5-byte integers
+		fdaLen := 2 + 1 + 2*(nFD+1) + nFD*11
+		privPos := nFda + fdaLen
+		var fds [][]byte
+		for i := 0; i < nFD; i++ {
+			d := append(int5(len(privates[i])), int5(privPos)...)
+			d = append(d, 18)
+			fds = append(fds, d)
+			privPos += len(privates[i])
+		}
+		fdaIdx = index(fds)
+		if nCharset == charsetOff && nFdsel == fdselOff && nCs == csOff && nFda == fdaOff {
+			break
+		}
+		charsetOff, fdselOff, csOff, fdaOff = nCharset, nFdsel, nCs, nFda
+	}
+	_ = asReal[6]
+	var out []byte
+	out = append(out, header...)
+	out = append(out, nameIdx...)
+	out = append(out, index([][]byte{top})...)
+	out = append(out, stringIdx...)
+	out = append(out, gsubrIdx...)
+	out = append(out, charset...)
+	out = append(out, fdsel...)
+	out = append(out, csIdx...)
+	out = append(out, fdaIdx...)
+	for _, p := range privates {
+		out = append(out, p...)
+	}
+	return out
+}
+
+func itoa(v int) string {
+	if v == 0 {
+		return "0"
+	}
+	var b []byte
+	for v > 0 {
+		b = append([]byte{byte('0' + v%10)}, b...)
+		v /= 10
+	}
+	return string(b)
+}
